@@ -43,6 +43,30 @@ def run_api_property(prop, tier, clauses, design=None, extra_assumptions=(), non
             rep.fail(clause, sig, detail={"stats": e["stats"], "cfg": e["cfg"], "nrows": e["nrows"],
                                           "ninputs": e["ninputs"]}, group=clause,
                      replay={"inputs": e["args"], "cfg": e["cfg"], "clause": clause})
+    # stage-level conformance of the recorded runs with Pipeline.tla (model drift, not a verdict)
+    from harness import stage_trace
+    wd = common.workdir("stage_%s_%d" % (prop, os.getpid()), fresh=True)
+    sres = stage_trace.validate(log + ".stages.ndjson", wd, limit=None if tier == "thorough" else 700)
+    rep.add_trace_stats(sres["rows"], sres["states"])
+    rep.extra["stage_histories_validated_against_Pipeline_tla"] = sres["rows"]
+    rep.extra["model_drift_count"] = len(sres["drift"])
+    rep.extra["model_drift"] = sres["drift"][:5]
+    for d in sres["drift"][:5]:
+        print("MODEL-DRIFT property=%s row history is not a behaviour of Pipeline.tla: input=%s stuck before stage %s" %
+              (prop, d["input"][:100], d["stuck_before_stage"]))
+    if tier == "thorough" and sres["rows"]:
+        # binding self-test: a corrupted snapshot must be rejected
+        hist = common.read_ndjson(os.path.join(wd, "stage_histories.ndjson"))[:40]
+        for h in hist:
+            h["stages"][3]["solved"] = not h["stages"][3]["solved"]
+        cf = os.path.join(wd, "corrupted.ndjson")
+        common.write_ndjson(cf, hist)
+        _, reached, _ = common.validate_trace("Pipeline_Trace", cf)
+        if not all(r <= 3 for r in reached):
+            raise common.MachineryError("Pipeline_Trace accepted corrupted stage histories (binding self-test failed)")
+        rep.extra["binding_self_test"] = "40 histories with a flipped 'solved' flag after rb_validate: all rejected at that stage"
+    import shutil
+    shutil.rmtree(wd, ignore_errors=True)
     rows = [e for e in events if e["ev"] == "row"]
     runs = [e for e in events if e["ev"] == "run"]
     rep.extra.update({
